@@ -3,6 +3,7 @@ import PhysisModel.Proofs.MdlFrame
 import PhysisModel.Proofs.MdlRuntimeSize
 import PhysisModel.Proofs.MdlHistory
 import PhysisModel.Proofs.MdlRelayoutLemmas
+import PhysisModel.Proofs.MdlFlags
 /-!
 # C07 — parse ∘ write ∘ edits ∘ parse reports the new geometry
 
@@ -46,20 +47,32 @@ def sectionEnds (fh : FileHeader) : List Nat :=
     (fh.vertexOffsets.toList ++ fh.indexOffsets.toList)
     (fh.vertexBufferSize.toList ++ fh.indexBufferSize.toList)
 
+/-- the size slots of the LODs not in use are 0 -/
+def UnusedEmpty (n : Nat) (fh : FileHeader) : Prop :=
+  ∀ i, n ≤ i → i < 3 →
+    fh.vertexBufferSize.get? i = some 0 ∧ fh.indexBufferSize.get? i = some 0
+
 /-- **write ∘ parse in `update_headers`' layout** -/
 theorem laid_write_parse (a : AbstractModel) (h : WF a = true) (hcan : Canonical a = true)
     (hlay : LaidOut a = true) (v : View) (hv : view a = some v) (m : MDL) (hrep : Rep a m)
-    (hok : HeaderOK m) (hst : StartsFromSubmesh m) :
+    (hok : HeaderOK m) (hst : StartsFromSubmesh m) (hun : UnusedEmpty a.lodCount.toNat m.fileHeader) :
     ∃ buf m2, writeToBuffer m = .ok buf ∧ fromExisting buf = .ok m2 ∧
       m2.fileHeader = m.fileHeader ∧ m2.modelData = m.modelData ∧ m2.view = v ∧
-      (∀ e ∈ sectionEnds m.fileHeader, e ≤ buf.length) := by
+      headerFlags m2.fileHeader buf.length m2.lods = HeaderFlags.allOk := by
   obtain ⟨hfh, harr, hmd, hl3, hmid, hlods⟩ :=
     frame_hyps runtimeSizeFact a h hcan hlay m hrep hok hst
   have hparts : m.lods.map (·.map wKey) = v.lods.map (·.map wKey) := by
     apply wKeys_of_partKeys
     rw [hrep.parts]
     exact (rep_initial a h v hv).parts.symm
-  exact write_parse_frame a h hcan v hv m hfh harr hmd hl3 hmid hlods hparts
+  obtain ⟨buf, m2, h1, h2, h3, h4, h5, h6⟩ :=
+    write_parse_frame a h hcan v hv m hfh harr hmd hl3 hmid hlods hparts
+  refine ⟨buf, m2, h1, h2, h3, h4, h5, ?_⟩
+  have hl : m2.lods = v.lods := by rw [← h5]; rfl
+  rw [h3, hl]
+  refine headerFlags_allOk a h hcan hlay v hv m.fileHeader ?_ ?_ harr hun buf.length h6
+  · rw [hfh]
+  · rw [hfh]
 
 theorem cedits_ne_nil : ∀ (es : List AEdit) (a : AbstractModel) (ces : List Edit), es ≠ [] →
     cedits a es = some ces → ces ≠ [] := by
@@ -94,21 +107,58 @@ theorem usedNonempty_iff (a : AbstractModel) (h : usedNonempty a = true) :
   simpa using this
 
 /-- the state after a history, in `update_headers`' layout, is written and re-read as `view a'` -/
-theorem edit_then_parse_of_rep (a a' : AbstractModel) (hsm : Small a') (m m' : MDL) (ces : List Edit)
+theorem edit_then_parse_of_rep (a' : AbstractModel) (hsm : Small a') (m m' : MDL) (ces : List Edit)
     (hne : ces ≠ []) (hd : RangesDisjoint m.modelData.lods m.fileHeader.lodCount.toNat)
     (hE : ces.foldlM Mdl.applyEdit m = .ok m') (hrep : Rep a' m')
     (h' : WF (relayout a') = true) (hcan' : Canonical a' = true) (hne' : usedNonempty a' = true)
-    (v : View) (hv : view a' = some v) (_ha : a = a) :
+    (v : View) (hv : view a' = some v) (hun : UnusedEmpty a'.lodCount.toNat m'.fileHeader) :
     ∃ buf m1, writeToBuffer m' = .ok buf ∧ fromExisting buf = .ok m1 ∧
       m1.fileHeader = m'.fileHeader ∧ m1.modelData = m'.modelData ∧ m1.view = v ∧
-      (∀ e ∈ sectionEnds m'.fileHeader, e ≤ buf.length) := by
+      headerFlags m1.fileHeader buf.length m1.lods = HeaderFlags.allOk := by
   obtain ⟨hok, hst⟩ := history_last ces hne m m' hd hE
   have W := wf_facts (relayout a') h'
   have hrep' := rep_relayout a' m' hsm.2.2 hrep
   have hlay := laidOut_relayout a' (by rw [← relayout_lods_length]; exact W.lods3) W.lc3
     (usedNonempty_iff a' hne')
   exact laid_write_parse (relayout a') h' (canonical_relayout a' hcan') hlay v
-    (by rw [view_relayout]; exact hv) m' hrep' hok hst
+    (by rw [view_relayout]; exact hv) m' hrep' hok hst hun
+
+/-- in a canonical file the size slots of the LODs not in use are 0 -/
+theorem unusedEmpty_initial (a : AbstractModel) (h : WF a = true) (hcan : Canonical a = true) :
+    UnusedEmpty a.lodCount.toNat (fileHeader a) := by
+  intro i hi hi3
+  have W := wf_facts a h
+  have hi3' : i < a.lods.length := by rw [W.lods3]; exact hi3
+  obtain ⟨l, hl⟩ : ∃ l, a.lods[i]? = some l := ⟨a.lods[i], List.getElem?_eq_getElem hi3'⟩
+  have hnil : l.meshes = [] := by
+    simp only [Canonical, Bool.and_eq_true, List.all_eq_true, and_assoc] at hcan
+    obtain ⟨_, _, _, hdrop, _⟩ := hcan
+    have : l ∈ a.lods.drop a.lodCount.toNat := by
+      rw [List.mem_iff_getElem?]
+      refine ⟨i - a.lodCount.toNat, ?_⟩
+      rw [List.getElem?_drop, ← hl]; congr 1; omega
+    simpa using hdrop l this
+  rw [header_vertexSize a h i l hl, header_indexSize a h i l hl]
+  simp [lodVertexSize, lodIndexSize, hnil]
+
+/-- after any history the size slots of the LODs that were not parsed are what they were -/
+theorem unusedEmpty_history (ces : List Edit) (m m' : MDL) (hE : ces.foldlM Mdl.applyEdit m = .ok m')
+    (n : Nat) (hn : m.lods.length ≤ n) (hun : UnusedEmpty n m.fileHeader) :
+    UnusedEmpty n m'.fileHeader := by
+  intro i hi hi3
+  have := (history_unused ces m m' hE).2 i (by omega)
+  simp only [fhSlots, Prod.mk.injEq] at this
+  rw [this.2.2.1, this.2.2.2]
+  exact hun i hi hi3
+
+theorem parsedOf_lods_length (a : AbstractModel) (h : WF a = true) (v : View)
+    (hv : view a = some v) : v.lods.length = a.lodCount.toNat := by
+  have W := wf_facts a h
+  have := congrArg List.length (rep_initial a h v hv).parts
+  rw [List.length_map, length_specKeys] at this
+  have this : v.lods.length = min a.lodCount.toNat a.lods.length := this
+  have h3 := W.lc3; have := W.lods3
+  omega
 
 /-- **parse ∘ write ∘ edits ∘ parse** for histories of `replace_vertices` / `remove_shape_meshes` -/
 theorem edit_then_parse (a : AbstractModel) (h : WF a = true) (hcan : Canonical a = true)
@@ -118,15 +168,22 @@ theorem edit_then_parse (a : AbstractModel) (h : WF a = true) (hcan : Canonical 
     (h' : WF (relayout a') = true) (hcan' : Canonical a' = true) (hne' : usedNonempty a' = true)
     (v : View) (hv : view a' = some v) (mE : MDL)
     (hE : ces.foldlM Mdl.applyEdit (parsedOf a v0) = .ok mE) :
-    fromExisting (encodeMdl a) = .ok (parsedOf a v0) ∧
     ∃ buf m1, writeToBuffer mE = .ok buf ∧ fromExisting buf = .ok m1 ∧
       m1.fileHeader = mE.fileHeader ∧ m1.modelData = mE.modelData ∧ m1.view = v ∧
-      (∀ e ∈ sectionEnds mE.fileHeader, e ≤ buf.length) := by
-  refine ⟨parse_encode a h (canonical_noWeightsByte4 a hcan) v0 hv0, ?_⟩
+      headerFlags m1.fileHeader buf.length m1.lods = HeaderFlags.allOk := by
   have hrep0 : Rep a (parsedOf a v0) := rep_initial a h v0 hv0
   obtain ⟨hrep, hsm⟩ := rep_history (fun hu => updateHeaders_strip hu) es a a' (parsedOf a v0) mE ces
     (small_of_wf a h) hrep0 hes ha' hces hE
-  exact edit_then_parse_of_rep a a' hsm (parsedOf a v0) mE ces (cedits_ne_nil es a ces hne hces)
-    (rep_rangesDisjoint h hrep0) hE hrep h' hcan' hne' v hv rfl
+  have hlc : a'.lodCount = a.lodCount := by
+    have e1 : mE.fileHeader.lodCount = a'.lodCount := (congrArg FileHeader.lodCount hrep.fh :)
+    have e2 := (history_frame ces (parsedOf a v0) mE hE).lodCount
+    rw [← e1, e2]; rfl
+  have hun : UnusedEmpty a'.lodCount.toNat mE.fileHeader := by
+    rw [hlc]
+    exact unusedEmpty_history ces (parsedOf a v0) mE hE _
+      (by show v0.lods.length ≤ _; rw [parsedOf_lods_length a h v0 hv0]; exact Nat.le_refl _)
+      (unusedEmpty_initial a h hcan)
+  exact edit_then_parse_of_rep a' hsm (parsedOf a v0) mE ces (cedits_ne_nil es a ces hne hces)
+    (rep_rangesDisjoint h hrep0) hE hrep h' hcan' hne' v hv hun
 
 end Physis.Mdl
